@@ -151,9 +151,7 @@ def lsk(n, mats, tnames):
         ref = n.attrs["materialization_ref"]
         left = lsk(kids[0], mats, tnames)
         right, _ = unpush(kids[1], ref, mats, tnames)
-        if jt not in ("mark", "left"):
-            return ("magicjoin-" + jt, left, right)
-        return ("magicjoin %d" % (1 if jt == "mark" else 0), left, right)
+        return ("magicjoin " + jt, left, right)
     if k == "MaterializationScan":
         ref = n.attrs["materialization_ref"]
         if ref not in mats:
@@ -246,6 +244,8 @@ def msk(x):
         return ("exprlist ?",) + tuple(kids)
     if head[0] == "matscan":
         return kids[0]
+    if head[0] == "magicjoin":
+        return ("magicjoin " + ("left" if head[1] == "scalar" else "mark"),) + tuple(kids)
     return (" ".join(head),) + tuple(kids)
 
 
@@ -317,10 +317,18 @@ def compare_logical(gverif, gmodel, work):
                 rec["engine_err"] = (e or {}).get("err") or (e or r)
             lines.append("(skel %s %s)" % (sch, q.sx))
             idx.append((rec, "skel", tn))
+            idx.append((rec, "pskel", tn))
             lines.append("(same %s %s %s)" % (sch, dbsx, q.sx))
             idx.append((rec, "same", tn))
     outs = common.run_model(gmodel, "x", lines, timeout=3600) if lines else []
     for (rec, kind, tn), o in zip(idx, outs):
+        if kind == "pskel":
+            if o.startswith("BADCASE") or rec.get("outcome") == "model_badcase":
+                continue
+            agree, psx = o.split(" ", 1)
+            rec["pmodel"] = psx
+            rec["pskel_agrees"] = agree
+            continue
         if kind == "same":
             rec["eval"] = o
             key = {"SAME": "eval_same", "DIFF": "eval_diff", "ERRPLAN": "eval_errplan", "ERRSPEC": "eval_errspec",
@@ -331,6 +339,7 @@ def compare_logical(gverif, gmodel, work):
         if o.startswith("BADCASE"):
             rec["outcome"] = "model_badcase"
             rec["why"] = o
+            # a BADCASE answers with one line only: drop the pending second line
             continue
         sup, wf, sx = o.split(" ", 2)
         rec["model"] = sx
@@ -367,3 +376,145 @@ def compare_logical(gverif, gmodel, work):
             cnt["logical_diff"] += 1
             rec["outcome"] = "logical_diff"
     return recs, cnt
+
+
+# ---------------------------------------------------------------- physical tree -> skeleton
+def pjt(s):
+    s = s.strip()
+    if s.startswith("LEFT MARK"):
+        return "mark"
+    return JT.get(s, s.lower())
+
+
+def is_magic_scan(n, ref):
+    """HashAggregate[no aggregates](Project(Materialize ref)): the duplicate-eliminated scan of the materialized outer side"""
+    return n.name == "HashAggregate" and count_items(n.attrs.get("aggregates", "[]")) == 0 and len(n.kids) == 1 \
+        and n.kids[0].name == "Project" and len(n.kids[0].kids) == 1 and n.kids[0].kids[0].name == "Materialize" \
+        and n.kids[0].kids[0].attrs.get("materialization_ref") == ref
+
+
+def psk_engine(n, mats, ref=None):
+    """engine physical node -> (skeleton, nc) ; nc = number of columns the dependent-join push-down appended below
+    (None when the subtree does not read the materialization `ref` of the enclosing magic join)"""
+    k = n.name
+    if k == "Scan":
+        return ("scan ?",), None
+    if k == "Materialize":
+        r = n.attrs.get("materialization_ref")
+        if n.kids:      # the MAT_<n> section root
+            return psk_engine(n.kids[0], mats, ref)
+        if r not in mats:
+            raise Unsupported("materialization " + str(r))
+        return psk_engine(mats[r], mats, None)[0], None
+    if k in ("NestedLoopJoin", "HashJoin"):
+        jt = pjt(n.attrs["join_type"])
+        left, right = n.kids
+        if ref is not None and k == "NestedLoopJoin" and jt == "inner" and "filter" not in n.attrs and is_magic_scan(right, ref):
+            sk, _ = psk_engine(left, mats, ref)
+            return sk, count_items(right.attrs["groups"])
+        magic = left.name == "Materialize" and not left.kids and jt in ("mark", "left")
+        if magic:
+            lsk_, _ = psk_engine(left, mats, None)
+            rsk, _ = psk_engine(right, mats, left.attrs.get("materialization_ref"))
+            if k == "HashJoin":
+                return ("hashjoin %s 0" % jt, lsk_, rsk), None
+            return ("nljoin %s 1" % jt, lsk_, rsk), None
+        (a, na), (b, nb) = psk_engine(left, mats, ref), psk_engine(right, mats, ref)
+        nc = na if na is not None else nb
+        if k == "HashJoin":
+            return ("hashjoin %s %d" % (jt, count_items(n.attrs["conditions"])), a, b), nc
+        return ("nljoin %s %d" % (jt, 1 if "filter" in n.attrs else 0), a, b), nc
+    subs = [psk_engine(c, mats, ref) for c in n.kids]
+    ncs = [x[1] for x in subs if x[1] is not None]
+    nc = ncs[0] if ncs else None
+    kids = tuple(s[0] for s in subs)
+    sub = nc or 0
+    if k == "Filter":
+        return ("filter",) + kids, nc
+    if k == "Project":
+        # a projection list that consists of the single literal '' prints as `[]`
+        return ("project %d" % (max(1, count_items(n.attrs["projections"])) - sub),) + kids, nc
+    if k == "HashAggregate":
+        aggs = split_items(n.attrs["aggregates"])
+        nk = count_items(n.attrs["groups"]) - sub
+        if not aggs:
+            return ("hashdistinct",) + kids, nc
+        kids = tuple(("project *",) + kk[1:] if kk[0].startswith("project ") else kk for kk in kids)
+        if nk == 0:
+            return ("ungroupedaggregate", ("aggs", len(set(aggs)), len(aggs))) + kids, nc
+        return ("hashaggregate %d" % nk, ("aggs", len(set(aggs)), len(aggs))) + kids, nc
+    if k == "UngroupedAggregate":
+        aggs = split_items(n.attrs["aggregates"])
+        kids = tuple(("project *",) + kk[1:] if kk[0].startswith("project ") else kk for kk in kids)
+        return ("ungroupedaggregate", ("aggs", len(set(aggs)), len(aggs))) + kids, nc
+    if k == "GlobalSort":
+        return ("sort %d" % count_items(n.attrs["sort_expressions"]),) + kids, nc
+    if k == "Limit":
+        off = n.attrs.get("offset", "0")
+        off = 0 if off in ("None", "") else int(off)
+        return ("limit %s %d" % (n.attrs["limit"], off),) + kids, nc
+    if k == "Union":
+        return ("union",) + kids, nc
+    if k == "SingleRow":
+        return ("singlerow",), None
+    if k in ("Values", "ExpressionList"):
+        return ("exprlist ?",) + kids, nc
+    raise Unsupported("physical operator " + k)
+
+
+def psk_model(x):
+    head, i = [], 0
+    while i < len(x) and isinstance(x[i], str):
+        head.append(x[i])
+        i += 1
+    kids = [psk_model(c) for c in x[i:]]
+    h = head[0]
+    if h == "scan":
+        return ("scan ?",)
+    if h in ("hashaggregate", "ungroupedaggregate"):
+        kids = [("project *",) + kk[1:] if kk[0].startswith("project ") else kk for kk in kids]
+        if h == "hashaggregate":
+            if head[2] == "0":
+                return ("hashdistinct",) + tuple(kids)
+            return ("hashaggregate %s" % head[1], ("naggs", int(head[2]))) + tuple(kids)
+        return ("ungroupedaggregate", ("naggs", int(head[1]))) + tuple(kids)
+    if h == "exprlist":
+        return ("exprlist ?",) + tuple(kids)
+    if h == "materialize":
+        return kids[0]
+    if h == "nljoin" and head[1] == "cross":
+        head[1] = "inner"
+    return (" ".join(head),) + tuple(kids)
+
+
+def compare_physical(recs, cnt, tables_of):
+    """second pass over the records of compare_logical: physical skeletons"""
+    cnt.update({"physical_equal": 0, "physical_diff": 0, "physical_unsupported": 0, "pskel_lemma_checked": 0,
+                "pskel_lemma_failed": 0})
+    for rec in recs:
+        if rec.get("outcome") not in ("equal", "logical_diff") or "pmodel" not in rec:
+            continue
+        nosub = not any(t in rec["ast"] for t in ("(exists ", "(insub ", "(scalar "))
+        if nosub and rec.get("pskel_agrees") != "u":
+            cnt["pskel_lemma_checked"] += 1
+            if rec.get("pskel_agrees") != "1":
+                cnt["pskel_lemma_failed"] += 1
+                rec["pskel_lemma_failed"] = True
+        try:
+            secs = parse_explain(rec["explain"]["physical"])
+            mats = {k: v for k, v in secs.items() if k != "Base"}
+            esk, _ = psk_engine(secs["Base"], mats, None)
+        except Unsupported as ex:
+            cnt["physical_unsupported"] += 1
+            rec["poutcome"] = "parse_unsupported"
+            rec["pwhy"] = str(ex)
+            continue
+        m = psk_model(parse_sx(rec["pmodel"]))
+        rec["pengine"] = sk_str(esk)
+        rec["pmodel_sk"] = sk_str(m)
+        if sk_equal(m, esk):
+            cnt["physical_equal"] += 1
+            rec["poutcome"] = "equal"
+        else:
+            cnt["physical_diff"] += 1
+            rec["poutcome"] = "physical_diff"
